@@ -1195,7 +1195,12 @@ class Interp:
         mod = getattr(st, "module", None)
         if mod is not None and n in mod.globals:
             v = self.resolve_lazy(mod.globals[n])
+            if isinstance(v, LibRef) and v.name in self.lib.CONSTANTS:
+                mname, attr = v.name.rsplit(".", 1)
+                return self.lib.module_attr(self, mname, attr)
             return v
+        if n == "NotImplemented":
+            return NOTIMPL
         b = self.lib.BUILTINS.get(n)
         if b is not None:
             return b
@@ -1693,6 +1698,9 @@ class ModuleRefUser:
 
 class NotImpl:
     pass
+
+
+NOTIMPL = NotImpl()
 
 
 class Choice:
